@@ -53,7 +53,7 @@ impl<R: Round, const B: Word> FBig<R, B> {
     pub(crate) fn split_at_point_internal(&self) -> (IBig, IBig, usize) {
         debug_assert!(self.repr.exponent < 0);
         if self.repr.smaller_than_one() {
-            return (IBig::ZERO, self.repr.significand.clone(), (-self.repr.exponent) as usize);
+            return (IBig::ZERO, self.repr.significand.clone(), self.repr.exponent.unsigned_abs());
         }
 
         let shift = (-self.repr.exponent) as usize;
